@@ -69,8 +69,10 @@ func oracleIDs(clocks, ids []int64) (sig, desc string) {
 		if clocks[i] > t+3 || t > max64(clocks[i], tprev+13) {
 			return "id-time-far-from-clock", fmt.Sprintf("id %d of call %d encodes %d ns; clock %d ns, previous encoded %d ns (allowed: clock-3 .. max(clock, prev+13))", id, i, t, clocks[i], tprev)
 		}
-		if lib := proto.MessageID(id).Time().UnixNano(); lib != specTime(id) || t-lib < 0 || t-lib >= 770_000_000 {
-			return "id-time-decoding", fmt.Sprintf("id %d: MessageID.Time() = %d ns, id/2^32 reading = %d ns, encoded instant = %d ns (want Time() = id/2^32 reading, 0..0.77 s before the encoded instant)", id, lib, specTime(id), t)
+		// MessageID.Time() (display decoding, int32 nanoseconds) must give a client id back the instant
+		// its encoder wrote; under the protocol reading id/2^32 that instant reads 0..0.77 s earlier
+		if lib, spec := proto.MessageID(id).Time().UnixNano(), specTime(id); lib != t || t-spec < 0 || t-spec >= 770_000_000 {
+			return "id-time-decoding", fmt.Sprintf("id %d: MessageID.Time() = %d ns, encoded instant = %d ns, id/2^32 reading = %d ns (want Time() = encoded instant, id/2^32 reading 0..0.77 s before it)", id, lib, t, spec)
 		}
 		tprev = t
 	}
